@@ -5,12 +5,12 @@
    (also with -acc) are compared with the -type csv table
    that C12 ties to the Data model.  ./check C16 reads the coordinates back from the matplotlib
    artists and compares them with these models (vm_compute, float instance) on the arrays the real
-   Data object delivers.  Not modelled: igncontrib, fss, autocorr/autocov, against, meteo, maps,
-   rank and impact views, the quantile lines of scatter.
+   Data object delivers.  Not modelled: fss, against, meteo, maps,
+   impact views, the quantile lines of scatter (the rank view: Model/Rank.v).
    The theorems below are about the BINNING rules of the model (Model/Diagrams.member), for all
    strictly increasing edges and all values: "every valid case falls in exactly one bin". *)
 From Coq Require Import Reals ZArith List Bool Lra.
-From VF Require Import Base.Num Base.Vec Base.Event Gen.Gen_interval Model.Diagrams Proofs.RList Proofs.C16_proofs Proofs.C16_hist Proofs.C16_econ.
+From VF Require Import Base.Num Base.Vec Base.Event Gen.Gen_interval Model.Diagrams Proofs.RList Proofs.C16_proofs Proofs.C16_hist Proofs.C16_econ Model.Rank Proofs.C16_rank.
 Import ListNotations.
 Local Open Scope R_scope.
 
@@ -75,6 +75,12 @@ Theorem C16_murphy_classes_partition_the_cases : forall e ps,
    + count_true (murphy_equal XR (Fin e) (map (@Fin R) ps)))%nat = length ps.
 Proof. exact murphy_partition. Qed.
 
+(* -type rank: at every rank position the bars of the inputs and the "None" bar account for every counted slice exactly once
+   (so the stacked shares add up to 1); a slice where some input has no score is in no bar *)
+Theorem C16_rank_bars_account_for_every_counted_slice : forall F j rows, well_ranked F j rows ->
+  (sum_upto F (fun i => rank_count F i j rows) + tie_count rows = valid_count rows)%nat.
+Proof. exact rank_counts_partition. Qed.
+
 (* non-vacuity *)
 Example C16_example : increasing [0; 1/2; 1] /\ [0; 1/2; 1] <> [] /\ 0 <= 1 <= last_edge [0; 1/2; 1].
 Proof. unfold last_edge; cbn. repeat split; try lra. discriminate. Qed.
@@ -90,3 +96,4 @@ Print Assumptions C16_fill_polygon_covers_all_valid_points.
 Print Assumptions C16_hist_shares_add_up_to_100.
 Print Assumptions C16_economic_value_groups_partition_the_cases.
 Print Assumptions C16_murphy_classes_partition_the_cases.
+Print Assumptions C16_rank_bars_account_for_every_counted_slice.
